@@ -349,6 +349,23 @@ def pairwiseSimpleCases (tagp : String) : Array Case := Id.run do
     let c := parseCase s!"{tagp}-sx{k}" "per-symbol-suffixed" s
     out := out.push { c with note := Json.mkObj [("kf", ("" : Json))] }
     k := k + 1
+  -- two annotations of one property type with a secondary suffix each (`A,p2(…) A,p3(…)`), with and without
+  -- the combination's own parentheses inside the component's: the suffix is no part of any value or shared text
+  for x in Sym.simples.filter (fun (y : Sym) => y.isProperty) do
+    for outer in [true, false] do
+      for shape in [0, 1, 2] do
+        let comb1 : Expr := .comb .AND (.leaf (str "first one")) (.leaf (str "first two"))
+        let comb2 : Expr := .comb .XOR (.leaf (str "second one")) (.leaf (str "second two"))
+        let e1 : Expr := if shape = 1 then .leaf (str "first value") else comb1
+        let e2 : Expr := if shape = 0 then .leaf (str "second value") else comb2
+        let s := Stmt.mk [.ann { sym := Sym.I } true (.leaf (str "acts")), Part.ann { sym := x } outer e1, Part.ann { sym := x } outer e2]
+        let c := parseCase s!"{tagp}-ss{k}" "per-symbol-secondary-suffix" s
+        let nm := String.ofList x.name
+        let text := match (String.ofList (renderS s)).splitOn (nm ++ "(") with
+          | [p0, p1, p2] => p0 ++ nm ++ "2(" ++ p1 ++ nm ++ "3(" ++ p2
+          | _ => String.ofList (renderS s)
+        out := out.push { c with args := Json.mkObj [("text", (text : Json))], note := Json.mkObj [("kf", ("" : Json))] }
+        k := k + 1
   pure out
 
 end Drv
